@@ -185,13 +185,14 @@ macro_rules! impl_bop {
             pub fn comul(&self, rhs: &Self) -> Self {
                 let a = self.base_rate + rhs.base_rate - self.base_rate * rhs.base_rate;
                 let b = self.b() + rhs.b() - self.b() * rhs.b();
+                // the weights ax/a and ay/a are formed first: with the base rates as factors of the numerators, subnormal
+                // base rates lose all their bits in the products before the division by the (equally small) a restores the scale
+                let wx = self.base_rate / a;
+                let wy = rhs.base_rate / a;
                 let d = self.d() * rhs.d()
-                    + (self.base_rate * (1.0 - rhs.base_rate) * self.d() * rhs.u()
-                        + rhs.base_rate * (1.0 - self.base_rate) * rhs.d() * self.u())
-                        / a;
-                let u = self.u() * rhs.u()
-                    + (rhs.base_rate * self.d() * rhs.u() + self.base_rate * rhs.d() * self.u())
-                        / a;
+                    + (wx * (1.0 - rhs.base_rate) * self.d() * rhs.u()
+                        + wy * (1.0 - self.base_rate) * rhs.d() * self.u());
+                let u = self.u() * rhs.u() + (wy * self.d() * rhs.u() + wx * rhs.d() * self.u());
                 // renormalise like the fusion operators: the deviation of b + d + u from 1 carried by the operands plus the
                 // rounding of the independent formulas otherwise leaves the 4-ulp window of the self-check
                 let s = b + d + u;
